@@ -78,9 +78,11 @@ def gen_reg(rng):
 def gen_mapseq(rng):
     mx = rng.choice([0, 1, 1, 2, 3])
     ops, opened = [], 0
+    early = rng.choice([0.0, 0.25, 0.25])
     for _ in range(rng.choice([4, 8, 14])):
         if opened == 0 or rng.random() < 0.6:
-            ops.append([0])
+            # [2]: the tunnel of this connection is closed by its peer between RegisterTunnel and tun.Start()
+            ops.append([2] if rng.random() < early else [0])
             opened += 1
         else:
             ops.append([1, rng.randrange(opened)])
@@ -100,6 +102,16 @@ def gen_quota(rng):
     else:
         sched = [rng.randrange(n) for _ in range(rng.choice([n, 2 * n, 3 * n]))]
     return {"mode": "quota", "kind": rng.choice(["code", "mapping"]), "max": mx, "pre": pre, "threads": n, "sched": sched}
+
+
+def gen_regsched(rng):
+    """k <= max concurrent Registers of new connections on a FULL control registry whose evicted streams park in Close()"""
+    mx = rng.choice([1, 2, 2, 3, 4])
+    n = rng.randrange(2, mx + 1) if mx >= 2 else 1
+    sched = [rng.randrange(n) for _ in range(rng.choice([n + 1, 2 * n, 2 * n + 1]))]
+    if rng.random() < 0.5:
+        sched = list(range(n)) + sched
+    return {"mode": "regsched", "kind": rng.choice(["control", "control", "control-sm"]), "max": mx, "n": n, "sched": sched}
 
 
 def qfault_cases(thorough):
@@ -131,8 +143,12 @@ def case_value(c, o, variants):
         return [1, 0 if c["kind"] == "tunnel" else 1, c["max"], [list(op) for op in c["ops"]],
                 [bool(x) for x in o["outcomes"]], [list(k) for k in o["keys"]]]
     if m == "mapseq":
-        return [2, variants["mapping"], c["max"], [list(op) for op in c["ops"]], [[a, b] for a, b in o["counts"]],
-                list(o["outcomes"])]
+        # a counter below zero cannot be written as a model value: map it to a number no model run produces
+        return [2, variants["mapping"], c["max"], [list(op) for op in c["ops"]],
+                [[a if a >= 0 else 999999, b] for a, b in o["counts"]], list(o["outcomes"])]
+    if m == "regsched":
+        ops = [[0, 100 + k, k] for k in range(c["max"])] + [[0, 1 + i, 1000 + i] for i in range(c["n"])]
+        return [5, c["max"], ops, list(o["keys"][0]) if o["keys"] else []]
     if m == "quota":
         return [3, variants["quota_" + c["kind"]], c["max"], c["pre"], c["threads"], list(o["sched"]),
                 [[a, b] for a, b in o["counts"]], list(o["outcomes"])]
@@ -164,7 +180,9 @@ def nontrivial(c, o):
     if m == "reg":
         return c["max"] > 0 and o["max_seen"] >= c["max"] and len(c["ops"]) > c["max"]
     if m == "mapseq":
-        return c["max"] > 0 and (2 in o["outcomes"] or o["max_seen"] > c["max"])
+        return c["max"] > 0 and (2 in o["outcomes"] or o["max_seen"] > c["max"] or any(op[0] == 2 for op in c["ops"]))
+    if m == "regsched":
+        return c["n"] >= 2
     if m == "quota":
         return not overlap_free(o["sched"], c["threads"]) or 2 in o["outcomes"] or 5 in o["outcomes"]
     if m == "qfault":
@@ -205,6 +223,7 @@ def run(ctx, only_cases=None):
         cases += [gen_server(rng) for _ in range(400 * k)]
         cases += [gen_reg(rng) for _ in range(300 * k)]
         cases += [gen_mapseq(rng) for _ in range(60 * k)]
+        cases += [gen_regsched(rng) for _ in range(30 if thorough else 10)]
         cases += [gen_quota(rng) for _ in range(120 * k)]
         cases += qfault_cases(thorough)
         cases += [gen_maprace(rng, 1500 if thorough else 250) for _ in range(16 if thorough else 8)]
@@ -240,7 +259,7 @@ def run(ctx, only_cases=None):
                 small["admitted"] = small["admitted"][:40] + ["..."]
             ctx.violation(key, "real code, mode %s: %s" % (c["mode"], o["prop_msg"]), {"case": c, "observed": small})
 
-    mc = [(c, o) for c, o in zip(cases, outs) if c["mode"] in ("server", "reg", "mapseq", "quota", "qfault") and o["prop_key"] != "harness"]
+    mc = [(c, o) for c, o in zip(cases, outs) if c["mode"] in ("server", "reg", "mapseq", "quota", "qfault", "regsched") and o["prop_key"] != "harness"]
     terms = [case_value(c, o, variants) for c, o in mc]
     mism = []
     try:
@@ -256,7 +275,7 @@ def run(ctx, only_cases=None):
     reported = set()
     for i in mism:
         c, o = mc[i]
-        key = "model-mismatch-" + c["mode"] + ("-" + c["kind"] if c["mode"] in ("reg", "quota", "qfault") else "")
+        key = "model-mismatch-" + c["mode"] + ("-" + c["kind"] if c["mode"] in ("reg", "quota", "qfault", "regsched") else "")
         if key in reported:
             continue
         reported.add(key)
@@ -273,7 +292,7 @@ def run(ctx, only_cases=None):
             nontriv.add(json.dumps(c, sort_keys=True))
     trials = sum(c.get("trials", 0) for c in cases if c["mode"] in ("maprace", "regrace"))
     samples = []
-    for want in ("server", "quota", "qfault", "reg", "mapseq"):
+    for want in ("server", "quota", "qfault", "regsched", "reg", "mapseq"):
         for c, o in zip(cases, outs):
             if c["mode"] == want and nontrivial(c, o):
                 samples.append({"case": c, "observed": {k: o[k] for k in ("sched", "counts", "outcomes", "keys", "max_seen", "prop_ok")}})
@@ -287,11 +306,14 @@ def run(ctx, only_cases=None):
                 "real TunnelRegistry / ClientRegistry / SessionManager control registrations, non-trivial = limit reached. mapseq: open/close "
                 "histories with real tunnels, non-trivial = a refusal or the limit exceeded. quota: CreateConnectionCode / ActivateConnectionCode "
                 "callers parked at their first storage write by a gated store, non-trivial = two admissions overlap between count and create, "
-                "or a refusal. qfault: the same two requests at a FULL quota, once per storage read position of the count (index GetList, every "
+                "or a refusal. regsched: a FULL control registry whose connections carry a stream that parks in Close(), k<=max concurrent "
+                "Registers of new connections driven by a schedule (start caller / let one parked Close go); count sampled after every step and "
+                "at the end, final key set compared with the model; non-trivial = at least two concurrent callers. mapseq histories include opens "
+                "whose tunnel is closed by its peer between RegisterTunnel and Start (counter must stay >= 0 and equal to the live tunnels). qfault: the same two requests at a FULL quota, once per storage read position of the count (index GetList, every "
                 "by-id Get, reads before the count) with exactly that read failing; predicate: never admitted, stored key set unchanged; "
                 "exhaustive over the positions for limits 1,2,3,5,10; non-trivial = at least two positions. maprace/regrace: barrier-released contention trials (counted in evaluations, one distinct case per configuration). "
                 "distinct by the whole case.",
-        "samples": samples[:5],
+        "samples": samples[:6],
         "model_vs_impl_cases": len(terms), "model_vs_impl_mismatches": len(mism), "impl_property_failures": nfail,
         "impl_property_failures_by_key": fail_keys,
         "tree_variants_detected": dict({k: ("pinned" if variants[k] == 0 else "repaired") for k in ("server", "mapping", "quota_code", "quota_mapping")},
@@ -307,6 +329,9 @@ def run(ctx, only_cases=None):
     ctx.assumptions += [
         "one mutex-protected section / one atomic Load, Add, CAS / one storage-level count or create is one atomic step",
         "connection ids handed to CreateConnection are pairwise distinct (C15), so an insert adds an entry and CreateStream does not fail",
+        "control cap: Register is ONE atomic step in the model; that atomicity is checked on the real code by parking the evicted connection's "
+        "Stream.Close() (a blocked caller is recognised by a 40 ms quiet period — on the clean code a late caller only makes the sample less "
+        "informative, never wrong); the evict;insert split is refuted in the model",
         "server cap: the replay granularity on the real code is [count check] and [GetConnectionID..insert] (the only gate the code offers); "
         "the model has the finer four-step program and is proved for every interleaving of it",
         "client mapping cap: the Load/CAS interleavings are exercised by contention trials only (no gate exists between them); "
